@@ -34,6 +34,7 @@ fn main() {
         "C09" => props::c09::run(&cfg),
         "C10" => props::c10::run(&cfg),
         "C11" => props::c11::run(&cfg),
+        "C12" => props::c12::run(&cfg),
         "C13" => props::c13::run(&cfg),
         "C14" => props::c14::run(&cfg),
         "C15" => props::c15::run(&cfg),
